@@ -6,11 +6,28 @@
   object of the entry (code, message, id, effect log).  "Nothing is invoked" is `effects = []`.
 
   Reading: "argument mismatch" = the call does not bind (`binds c.sig params = false`); any exception
-  raised by the body — a `TypeError` included — is −32603 (the code tests `tb_next`).
+  raised by the body — a `TypeError` included — is −32603.  The code tells the two apart by
+  `sys.exc_info()[2].tb_next is not None`; the model does not assume the answer: the *depth* at which a
+  behaviour raises is part of the behaviour (`CallOutcome.raised … depth`, JRV.Model.Callable), and the
+  theorems say what the code does for every depth:
+    * `C05_params_iff` — −32602 exactly when the arguments do not bind **or** the callable raised a
+      `TypeError` that carries no frame of its own (depth 0: a C-implemented callable — a registered
+      builtin such as `len` called with `[5]`, `functools.partial` given too many arguments).  For such
+      a callable the code cannot distinguish "rejected its arguments" from "ran and failed";
+      `C05_frameless_typeerror` states that case separately (the effect log shows the call).
+    * `C05_params_iff_framed` / `C05_internal` — for a callable whose exceptions have a frame of their
+      own (every Python `def`, lambda, bound method, object with a Python `__call__`, decorated
+      function: depth ≥ 1, at *any* depth — own frame, helper, decorator) −32602 ⇔ the call does not
+      bind, and every exception of the body, `TypeError` included, is −32603 naming class and text.
+  Attributes: one bound to `None` is an unknown method (−32601, `C05_none_attribute`); one that is
+  neither callable nor `None` makes the call itself fail (−32602, `C05_noncallable_attribute` — outside
+  the stated domain, recorded as an observation).  `C05_instance_dispatch` covers an instance with its
+  own `_dispatch`.
+
+  The companion theorems of the extracted facts (`C05_gen_*`) are in JRV/Properties/C05Gen.lean.
 -/
 import JRV.Lemmas.Server
 import JRV.Model.Client
-import JRV.Generated
 
 set_option linter.unusedSimpArgs false
 set_option linter.unusedVariables false
@@ -61,13 +78,14 @@ theorem C05_invalid_toplevel (s : Server) (hpool : s.pool ≠ .full) (e : PyVal)
         (.ok (.doc (Payload.error s.cfg.version .none (.int (-32600)) (.str msgNoData) .none)), [])) ∧
     (e.truthy = true → e.isList = false → wfRequest e = false →
       ∃ msg, marshaledDispatch s (.parsed e) =
-        (.ok (finalReply s (Payload.error s.cfg.version (entryId e) (.int (-32600)) (.str msg) .none)), [])) := by
+        (.ok (.doc (sent (Payload.error s.cfg.version (entryId e) (.int (-32600)) (.str msg) .none))), [])) := by
   constructor
   · intro hf
     rw [marshaled_falsy s e hf]; rfl
   · intro ht hl hw
     obtain ⟨msg, hr, heff⟩ := C05_invalid s e hw
-    exact ⟨msg, by rw [marshaled_single s hpool e ht hl, hr, heff]⟩
+    obtain ⟨kvs, hk⟩ := respond_dict s e _ hr
+    exact ⟨msg, by rw [marshaled_single s hpool e ht hl, hr, heff]; simp only [hk, finalReply_dict]⟩
 
 /- ---------- lifting dispatcher results to responses ---------- -/
 
@@ -134,6 +152,50 @@ theorem C05_private (s : Server) (hcustom : s.custom = Option.none) (m : String)
     runDispatcher s (.str m) p = (.ok (.fault (-32601) (msgUnknown m)), []) :=
   C05_unknown s hcustom m p hf (Or.inr ⟨inst, hi, hd, C05_private_segments _ _ h⟩)
 
+/-- An attribute bound to `None` is an unknown method (`if func is not None: … else: −32601`): nothing is invoked. -/
+theorem C05_none_attribute (s : Server) (hcustom : s.custom = Option.none) (m : String) (p : PyVal)
+    (hf : s.reg.funcs.lookup m = Option.none) (inst : Instance) (hi : s.reg.inst = some inst)
+    (hd : inst.dispatch = Option.none) (hr : resolveDotted inst m = some .noneValue) :
+    runDispatcher s (.str m) p = (.ok (.fault (-32601) (msgUnknown m)), []) := by
+  simp [runDispatcher, hcustom, dispatch, hf, hi, hd, resolveAndInvoke, hr, Attr.isNoneValue, Attr.callable, unknownMethod,
+    codeUnknown]
+
+/-- Observation outside the stated domain: an attribute that is neither callable nor `None` (a number, a
+    namespace) makes the call expression itself raise `TypeError` in the frame of `_dispatch`: −32602,
+    nothing is invoked. -/
+theorem C05_noncallable_attribute (s : Server) (hcustom : s.custom = Option.none) (m : String) (p : PyVal)
+    (hf : s.reg.funcs.lookup m = Option.none) (inst : Instance) (hi : s.reg.inst = some inst)
+    (hd : inst.dispatch = Option.none) (ch : List (String × Attr))
+    (hr : resolveDotted inst m = some (.node Option.none ch)) :
+    runDispatcher s (.str m) p = (.ok (.fault (-32602) msgParams), []) := by
+  simp [runDispatcher, hcustom, dispatch, hf, hi, hd, resolveAndInvoke, hr, Attr.isNoneValue, Attr.callable, invoke,
+    handleCallExc, codeParams]
+
+/- ---------- an instance with its own `_dispatch` ---------- -/
+
+/-- The name is not a registered function and the instance has a `_dispatch` method `d`: it is called
+    exactly once with `(method, params)`, and
+      * its return value is the result;
+      * an exception other than `AttributeError` escapes `_dispatch` (and is answered −32603
+        `"<class>:<text>"` with the id of the request: `C05_raise_answer`);
+      * an `AttributeError` (or a subclass) — which the code cannot tell from "the instance has no
+        `_dispatch`" — falls through to the dotted resolution on the instance. -/
+theorem C05_instance_dispatch (s : Server) (hcustom : s.custom = Option.none) (m : String) (p : PyVal)
+    (hf : s.reg.funcs.lookup m = Option.none) (inst : Instance) (hi : s.reg.inst = some inst)
+    (d : DispatchFn) (hd : inst.dispatch = some d) :
+    (∀ v, d (.str m) p = .ret v →
+      runDispatcher s (.str m) p = (.ok (.value v), [.call .instDispatch (.str m) p])) ∧
+    (∀ cls text te depth, d (.str m) p = .raised cls text te false depth →
+      runDispatcher s (.str m) p = (.error { cls := cls, arg := .str text }, [.call .instDispatch (.str m) p])) ∧
+    (∀ cls text te depth, d (.str m) p = .raised cls text te true depth →
+      runDispatcher s (.str m) p =
+        (.ok (resolveAndInvoke inst m (.str m) p).1,
+         .call .instDispatch (.str m) p :: (resolveAndInvoke inst m (.str m) p).2)) := by
+  refine ⟨?_, ?_, ?_⟩
+  · intro v hv; simp [runDispatcher, hcustom, dispatch, hf, hi, hd, hv]
+  · intro cls text te depth hv; simp [runDispatcher, hcustom, dispatch, hf, hi, hd, hv]
+  · intro cls text te depth hv; simp [runDispatcher, hcustom, dispatch, hf, hi, hd, hv]
+
 /- ---------- −32602 ---------- -/
 
 /-- The arguments do not bind: −32602, and the function is not invoked. -/
@@ -142,45 +204,93 @@ theorem C05_params (s : Server) (hcustom : s.custom = Option.none) (m : String) 
     runDispatcher s (.str m) p = (.ok (.fault (-32602) msgParams), []) := by
   simp [runDispatcher, hcustom, dispatch, hf, invoke, hb, handleCallExc, codeParams]
 
-/-- −32602 exactly when the arguments do not bind: a call that binds gives the body's result or −32603,
-    never −32602 — even when the body raises `TypeError`. -/
+/-- The `TypeError` the code cannot attribute: the arguments bind, the callable is entered and raises a
+    `TypeError` that carries no frame of its own (depth 0: `len` given `[5]`, `dict` given `[1]`).  It is
+    answered −32602 although the callable ran — the effect log says so. -/
+theorem C05_frameless_typeerror (s : Server) (hcustom : s.custom = Option.none) (m : String) (p : PyVal)
+    (c : Callable) (hf : s.reg.funcs.lookup m = some c) (hb : binds c.sig p = true)
+    (cls text : String) (isAE : Bool) (hbody : c.body p = .raised cls text true isAE 0) :
+    runDispatcher s (.str m) p = (.ok (.fault (-32602) msgParams), [.call .func (.str m) p]) := by
+  simp [runDispatcher, hcustom, dispatch, hf, invoke, hb, hbody, handleCallExc, codeParams]
+
+/-- −32602 exactly when the arguments do not bind or the callable raised a frameless `TypeError`
+    (the depth is an input of the behaviour, not an assumption of the model): in every other case —
+    the body returns, raises anything that is not a `TypeError`, or raises a `TypeError` at depth ≥ 1 —
+    the answer is the body's result or −32603, never −32602. -/
 theorem C05_params_iff (s : Server) (hcustom : s.custom = Option.none) (m : String) (p : PyVal)
     (c : Callable) (hf : s.reg.funcs.lookup m = some c) :
-    (∃ msg, (runDispatcher s (.str m) p).1 = .ok (.fault (-32602) msg)) ↔ binds c.sig p = false := by
+    (∃ msg, (runDispatcher s (.str m) p).1 = .ok (.fault (-32602) msg)) ↔
+      (binds c.sig p = false ∨ ∃ cls text ae, c.body p = .raised cls text true ae 0) := by
   constructor
   · intro ⟨msg, h⟩
     cases hb : binds c.sig p with
-    | false => rfl
+    | false => exact Or.inl rfl
     | true =>
+      right
       simp only [runDispatcher, hcustom, dispatch, hf, invoke, hb, ↓reduceIte] at h
       cases hbody : c.body p with
       | ret v => simp [hbody] at h
-      | raised cls text te ae =>
-        cases te <;> simp [hbody, handleCallExc, methodExceptionFault, codeInternal] at h
-  · intro hb
-    exact ⟨msgParams, by rw [C05_params s hcustom m p c hf hb]⟩
+      | raised cls text te ae depth =>
+        cases te with
+        | false => simp [hbody, handleCallExc, methodExceptionFault, codeInternal] at h
+        | true =>
+          cases depth with
+          | zero => exact ⟨cls, text, ae, rfl⟩
+          | succ k => simp [hbody, handleCallExc, methodExceptionFault, codeInternal] at h
+  · rintro (hb | ⟨cls, text, ae, hbody⟩)
+    · exact ⟨msgParams, by rw [C05_params s hcustom m p c hf hb]⟩
+    · cases hb : binds c.sig p with
+      | false => exact ⟨msgParams, by rw [C05_params s hcustom m p c hf hb]⟩
+      | true => exact ⟨msgParams, by rw [C05_frameless_typeerror s hcustom m p c hf hb cls text ae hbody]⟩
+
+/-- A callable is *framed* on `p` when an exception it raises there has a traceback entry of its own
+    (depth ≥ 1): every Python `def`, lambda, bound method, object with a Python `__call__`, decorated
+    function — whatever the depth. -/
+def framed (c : Callable) (p : PyVal) : Bool :=
+  match c.body p with
+  | .raised _ _ _ _ 0 => false
+  | _ => true
+
+/-- For framed callables: −32602 exactly when the arguments do not bind — even when the body raises
+    `TypeError`, in its own frame or any number of frames further down. -/
+theorem C05_params_iff_framed (s : Server) (hcustom : s.custom = Option.none) (m : String) (p : PyVal)
+    (c : Callable) (hf : s.reg.funcs.lookup m = some c) (hfr : framed c p = true) :
+    (∃ msg, (runDispatcher s (.str m) p).1 = .ok (.fault (-32602) msg)) ↔ binds c.sig p = false := by
+  rw [C05_params_iff s hcustom m p c hf]
+  constructor
+  · rintro (hb | ⟨cls, text, ae, hbody⟩)
+    · exact hb
+    · simp [framed, hbody] at hfr
+  · exact Or.inl
 
 /-- Same for a callable attribute of the instance. -/
 theorem C05_params_instance (s : Server) (hcustom : s.custom = Option.none) (m : String) (p : PyVal)
     (hf : s.reg.funcs.lookup m = Option.none) (inst : Instance) (hi : s.reg.inst = some inst)
-    (hd : inst.dispatch = Option.none) (a : Attr) (hr : resolveDotted inst m = some a)
-    (c : Callable) (hc : a.callable = some c) (hb : binds c.sig p = false) :
+    (hd : inst.dispatch = Option.none) (ch : List (String × Attr)) (c : Callable)
+    (hr : resolveDotted inst m = some (.node (some c) ch)) (hb : binds c.sig p = false) :
     runDispatcher s (.str m) p = (.ok (.fault (-32602) msgParams), []) := by
-  simp [runDispatcher, hcustom, dispatch, hf, hi, hd, resolveAndInvoke, hr, hc, invoke, hb, handleCallExc, codeParams]
+  simp [runDispatcher, hcustom, dispatch, hf, hi, hd, resolveAndInvoke, hr, Attr.isNoneValue, Attr.callable, invoke, hb,
+    handleCallExc, codeParams]
 
 /- ---------- −32603 ---------- -/
 
-/-- Any exception raised by the body of the method — `TypeError` and its subclasses included — is
-    −32603, the message names the exception class and its text, and the method ran exactly once. -/
+/-- Any exception raised by the body of the method is −32603, the message names the exception class and
+    its text, and the method ran exactly once — for every class that is not a `TypeError`, and for
+    `TypeError` and its subclasses at every depth ≥ 1 (own frame, helper, decorator). -/
 theorem C05_internal (s : Server) (hcustom : s.custom = Option.none) (m : String) (p : PyVal)
     (c : Callable) (hf : s.reg.funcs.lookup m = some c) (hb : binds c.sig p = true)
-    (cls text : String) (isTE isAE : Bool) (hbody : c.body p = .raised cls text isTE isAE) :
+    (cls text : String) (isTE isAE : Bool) (depth : Nat) (hbody : c.body p = .raised cls text isTE isAE depth)
+    (hdepth : isTE = true → depth ≠ 0) :
     runDispatcher s (.str m) p =
       (.ok (.fault (-32603) (msgServerError cls text)), [.call .func (.str m) p]) ∧
     (∃ pre mid post, msgServerError cls text = pre ++ cls ++ mid ++ text ++ post) := by
   constructor
-  · cases isTE <;>
+  · cases isTE with
+    | false =>
       simp [runDispatcher, hcustom, dispatch, hf, invoke, hb, hbody, handleCallExc, methodExceptionFault, codeInternal]
+    | true =>
+      have := hdepth rfl
+      simp [runDispatcher, hcustom, dispatch, hf, invoke, hb, hbody, handleCallExc, methodExceptionFault, codeInternal, this]
   · simp only [msgServerError]
     by_cases ht : text.isEmpty = true
     · refine ⟨"Server error: ", "", "", ?_⟩
@@ -188,12 +298,31 @@ theorem C05_internal (s : Server) (hcustom : s.custom = Option.none) (m : String
       simp [ht, this]
     · exact ⟨"Server error: ", ": ", "", by simp [ht, String.append_assoc]⟩
 
+/-- Same through the registered instance (no `_dispatch` of its own): the resolved attribute's exception
+    is −32603 naming class and text, one call. -/
+theorem C05_internal_instance (s : Server) (hcustom : s.custom = Option.none) (m : String) (p : PyVal)
+    (hf : s.reg.funcs.lookup m = Option.none) (inst : Instance) (hi : s.reg.inst = some inst)
+    (hd : inst.dispatch = Option.none) (ch : List (String × Attr)) (c : Callable)
+    (hr : resolveDotted inst m = some (.node (some c) ch)) (hb : binds c.sig p = true)
+    (cls text : String) (isTE isAE : Bool) (depth : Nat) (hbody : c.body p = .raised cls text isTE isAE depth)
+    (hdepth : isTE = true → depth ≠ 0) :
+    runDispatcher s (.str m) p =
+      (.ok (.fault (-32603) (msgServerError cls text)), [.call .attr (.str m) p]) := by
+  cases isTE with
+  | false =>
+    simp [runDispatcher, hcustom, dispatch, hf, hi, hd, resolveAndInvoke, hr, Attr.isNoneValue, Attr.callable, invoke, hb,
+      hbody, handleCallExc, methodExceptionFault, codeInternal]
+  | true =>
+    have := hdepth rfl
+    simp [runDispatcher, hcustom, dispatch, hf, hi, hd, resolveAndInvoke, hr, Attr.isNoneValue, Attr.callable, invoke, hb,
+      hbody, handleCallExc, methodExceptionFault, codeInternal, this]
+
 /-- A raising custom dispatch function (or instance `_dispatch`): −32603 `"<class>:<text>"`, with the id
     of the request, and the function was called exactly once. -/
 theorem C05_internal_custom (s : Server) (hpool : s.pool ≠ .full) (d : DispatchFn) (hcustom : s.custom = some d)
     (e : PyVal) (kvs : List (PyVal × PyVal)) (m : String) (p : PyVal) (hv : validateNF e = .valid kvs m p)
-    (hn : notifNF kvs = false) (cls text : String) (isTE isAE : Bool)
-    (hbody : d (.str m) p = .raised cls text isTE isAE) :
+    (hn : notifNF kvs = false) (cls text : String) (isTE isAE : Bool) (depth : Nat)
+    (hbody : d (.str m) p = .raised cls text isTE isAE depth) :
     respond s e = some (errorResp s kvs (-32603) (cls ++ ":" ++ text)) ∧
     entryEffects s e = [.call .custom (.str m) p] := by
   apply C05_raise_answer s hpool e kvs m p hv hn
@@ -227,38 +356,59 @@ theorem C05_client_v1 (rid : PyVal) (c : Int) (hc : c ∈ standardCodes) (msg : 
       .error { cls := "ProtocolError", arg := .tuple [.int c, .str msg] } :=
   C05_client 10 rid c hc msg (by omega)
 
-/- ---------- tie to the source ---------- -/
-
-theorem C05_gen_faultSites : Generated.faultSites = some faultSiteTable := by decide
-
-/-- The handlers around `func(*params)`: `except TypeError` first, then a catch-all. -/
-theorem C05_gen_dispatchHandlers : Generated.dispatchHandlers = some ["TypeError", "<bare>"] := by decide
-
-/-- The `TypeError` handler first tests `tb_next is not None` (`CallExc.inBody`) and reports a method exception. -/
-theorem C05_gen_tbNextTest : Generated.tbNextTest = some true := by decide
-
-/-- `resolve_dotted_attribute(self.instance, method, True)`: dotted names are split (`resolveDotted`). -/
-theorem C05_gen_dottedAllowed : Generated.dottedAllowed = some true := by decide
-
-theorem C05_gen_loadsGuarded : Generated.loadsGuarded = some true := by decide
-
 /- Non-vacuity -/
 
 private def exInst : Instance :=
   { attrs := [("ns", .node Option.none [("_hidden", .node (some { sig := { names := [] }, body := fun _ => .ret (.int 1) }) []),
-                                         ("meth", .node (some { sig := { names := ["a"] }, body := fun _ => .raised "TypeError" "inside" true false }) [])])] }
+                                         ("meth", .node (some { sig := { names := ["a"] }, body := fun _ => .raised "TypeError" "inside" true false 1 }) [])]),
+              ("nothing", .noneValue), ("number", .node Option.none [])] }
 
 example : resolveSegs ["ns", "_hidden"] (.node Option.none exInst.attrs) = Option.none :=
   C05_private_segments _ _ ⟨"_hidden", by simp, by simp⟩
 
-/-- A `TypeError` raised inside the body is an internal error, not "invalid parameters". -/
-example : dispatch { funcs := [("te", { sig := { names := ["a"] }, body := fun _ => .raised "TypeError" "inside" true false })] }
-    "te" (.list [.int 1])
+private def exTE (depth : Nat) : Registry :=
+  { funcs := [("te", { sig := { names := ["a"] }, body := fun _ => .raised "TypeError" "inside" true false depth })] }
+
+/-- A `TypeError` raised inside the body — in the function's own frame (depth 1) or behind two more
+    frames — is an internal error, not "invalid parameters" … -/
+example : dispatch (exTE 1) "te" (.list [.int 1])
     = (.ok (.fault (-32603) "Server error: TypeError: inside"), [.call .func (.str "te") (.list [.int 1])]) := by
   decide +kernel
 
-example : (dispatch { funcs := [("te", { sig := { names := ["a"] }, body := fun _ => .raised "TypeError" "inside" true false })] }
-    "te" (.list [])).1 = .ok (.fault (-32602) msgParams) := by
+example : dispatch (exTE 3) "te" (.list [.int 1])
+    = (.ok (.fault (-32603) "Server error: TypeError: inside"), [.call .func (.str "te") (.list [.int 1])]) := by
+  decide +kernel
+
+/-- … a frameless one (a builtin's) is −32602 although the callable ran … -/
+example : dispatch (exTE 0) "te" (.list [.int 1])
+    = (.ok (.fault (-32602) msgParams), [.call .func (.str "te") (.list [.int 1])]) := by
+  decide +kernel
+
+/-- … and arguments that do not bind are −32602 with nothing invoked. -/
+example : dispatch (exTE 1) "te" (.list []) = (.ok (.fault (-32602) msgParams), []) := by
+  decide +kernel
+
+example : framed { sig := { names := ["a"] }, body := fun _ => .raised "TypeError" "inside" true false 2 } (.list [.int 1]) = true := by
+  decide
+
+/-- `C05_instance_dispatch`: an instance whose own `_dispatch` returns / raises something that is not an
+    `AttributeError` (the fall-through case needs `String.splitOn`, which the kernel cannot evaluate). -/
+example : dispatch { inst := some { dispatch := some (fun m _ => .ret m) } } "anything" (.list [])
+    = (.ok (.value (.str "anything")), [.call .instDispatch (.str "anything") (.list [])]) := by
+  decide +kernel
+
+example : dispatch { inst := some { dispatch := some (fun _ _ => .raised "KeyError" "" false false 1) } } "m" (.list [])
+    = (.error { cls := "KeyError", arg := .str "" }, [.call .instDispatch (.str "m") (.list [])]) := by
+  decide +kernel
+
+/-- The attribute shapes of `C05_none_attribute` / `C05_noncallable_attribute` (on the segment list:
+    the kernel cannot evaluate `String.splitOn` on a literal). -/
+example : (resolveSegs ["nothing"] (.node Option.none exInst.attrs)).map Attr.isNoneValue = some true := by
+  decide +kernel
+example : (resolveSegs ["number"] (.node Option.none exInst.attrs)).map (fun a => (a.isNoneValue, a.callable.isSome))
+    = some (false, false) := by
+  decide +kernel
+example : (resolveSegs ["nothing", "real"] (.node Option.none exInst.attrs)).isNone = true := by
   decide +kernel
 
 end JRV.Props
